@@ -1493,7 +1493,7 @@ func (vm *Vm) raise(exc, cause py.Object) error {
 			return py.ExceptionNewf(py.RuntimeError, "No active exception to reraise")
 		} else {
 			// Resignal the exception
-			vm.curexc = vm.exc
+			vm.curexc = *vm.exc
 			// Signal the existing exception again
 			vm.why = whyException
 
@@ -1873,6 +1873,15 @@ func RunFrame(frame *py.Frame) (res py.Object, err error) {
 	var vm = Vm{
 		frame:   frame,
 		context: frame.Context,
+	}
+	// The exception being handled belongs to the thread of
+	// execution: a frame inherits it from its caller and every
+	// handler entered here restores it on the way out
+	vm.exc = &vm.ownExc
+	if frame.Context != nil && frame.Code.Flags&py.CO_GENERATOR == 0 {
+		if store := frame.Context.Store(); store != nil {
+			vm.exc = &store.ExcInfo
+		}
 	}
 
 	// FIXME need to do this to save the old exeption when we
